@@ -1132,6 +1132,33 @@ fn consumer_data(data: &[u8], o: &mut Outcome, panicked: &mut bool) -> Option<Re
             });
         }
     }
+    // the same codewords once more from a buffer that does NOT start on an 8-byte boundary (a sub-slice of the caller's
+    // buffer): word-at-a-time code paths depend on where the slice lies, not on what it holds
+    if data.len() >= 8 && data.len() <= 4_000_000 && !*panicked {
+        let off = 1 + (data.len() + data[0] as usize) % 7;
+        let mut buf = vec![0u8; data.len() + 8];
+        let base = buf.as_ptr() as usize % 8;
+        let off = (off + 8 - base) % 8; // so that the slice really starts at address = off (mod 8), off != 0
+        let off = if off == 0 { 1 } else { off };
+        buf[off..off + data.len()].copy_from_slice(data);
+        let sub = &buf[off..off + data.len()];
+        match guard(|| (decode_data(sub), decode_str(sub))) {
+            Ok((d2, _s2)) => {
+                if let Some(Ok(d1)) = out.as_ref().map(|r| r.as_ref().map_err(|_| ())) {
+                    if d2.as_ref().ok() != Some(d1) {
+                        o.other_events.push("result_depends_on_buffer_alignment".into());
+                    }
+                }
+            }
+            Err(p) => {
+                o.violations.push(Violation {
+                    prop: "C05",
+                    class: format!("panic:decode_data/str(unaligned slice)@{}", p.loc),
+                    detail: p.msg,
+                });
+            }
+        }
+    }
     out
 }
 
